@@ -77,7 +77,7 @@ func expandMacros(s string, macros map[string]string) string {
 }
 
 var labelRe = regexp.MustCompile(`^\[([A-Za-z0-9_.\-]+)\]\s*`)
-var tagRe = regexp.MustCompile(`^\{([A-Z0-9 ,]+)\}\s*`)
+var tagRe = regexp.MustCompile(`^\{([A-Za-z0-9 ,]+)\}\s*`)
 
 // Parse extracts contract blocks from the text of a file. Lines of interest start
 // with "//@". A line "//@   ..." (three or more blanks, or a tab) continues the
